@@ -230,7 +230,12 @@ def build(env, spec):
     elif pol == "CLOCKWORK":
         from schedulers import ClockworkScheduler
 
-        sch = ClockworkScheduler(runtime=ET(srt), goal=spec.get("goal", "clockwork"))
+        fl = None
+        if spec.get("run_load"):
+            import types
+
+            fl = types.SimpleNamespace(scheduler_run_load=True, log_dir=None, log_file_name=None, log_level="debug")
+        sch = ClockworkScheduler(runtime=ET(srt), goal=spec.get("goal", "clockwork"), _flags=fl)
     elif pol == "HAVOC":
         from .havoc import HavocScheduler
 
